@@ -346,12 +346,33 @@ def op_reduce(st, op, info):
         info.results = [r]
 
 
+def _same_key_object(st, arr, ki):
+    """a caller that addresses one array in a loop keeps one key dict and changes its entries: the key handed to [] is then the
+    very object of the previous access, with other content"""
+    if not isinstance(ki.key, dict):
+        return
+    if not hasattr(st, "keyobjs"):
+        st.keyobjs = []
+    for a, obj in st.keyobjs:
+        if a is arr:
+            if st.cur % 3:
+                obj.clear()
+                obj.update(ki.key)
+                ki.key = obj
+                st.probe("key_dict_object_reused_with_other_content")
+            return
+    st.keyobjs.append((arr, ki.key))
+    if len(st.keyobjs) > 16:
+        st.keyobjs.pop(0)
+
+
 def op_slice(st, op, info):
     info.kind = "slice"
     x = st.slot(op["s"])
     if x is None:
         return
     ki = build_key(op["key"], x, st.D, st.OF)
+    _same_key_object(st, x, ki)
     info.kind = "slice:" + ki.form + ("+subset" if ki.has_subset else "") + ("+list" if ki.has_list else "")
     info.inputs = [x]
     info.indep = True
@@ -399,6 +420,7 @@ def op_setitem(st, op, info):
     if t is None:
         return
     ki = build_key(op["key"], t, st.D, st.OF)
+    _same_key_object(st, t, ki)
     info.kind = "setitem:" + ki.form
     info.inplace = True
     info.target = t
